@@ -801,12 +801,14 @@ def analyse_logging(objs, relfile):
         k = n.get("kind")
         if k in ("FunctionDecl", "CXXMethodDecl", "CXXConstructorDecl", "CXXDestructorDecl"):
             f, l = loc_of(n)
-            if f == relfile and any(c.get("kind") == "CompoundStmt" for c in kids(n)):
+            # + the inline accessors of the per-thread caches the Logger front-end reads (CurrentThread::tid() ...)
+            if (f == relfile or (f or "").endswith("muduo/base/CurrentThread.h")) and \
+               any(c.get("kind") == "CompoundStmt" for c in kids(n)):
                 fns.append(n)
             return
         if k == "VarDecl":
             f, l = loc_of(n)
-            if f == relfile or (f or "").endswith("Logging.h"):
+            if f == relfile or (f or "").endswith("Logging.h") or (f or "").endswith("muduo/base/CurrentThread.h"):
                 t = qt(n)
                 nm = n.get("name")
                 gv[n["id"]] = nm
